@@ -17,6 +17,9 @@ pub(crate) use core::sync::atomic::*;
 #[cfg(feature = "loom")]
 pub(crate) use loom::sync::atomic::*;
 
+#[cfg(rarena_verif)]
+pub(crate) use crate::verif::{AtomicU32, AtomicU64, AtomicUsize};
+
 pub(crate) trait UnsafeCellExt<T> {
   fn as_inner_ptr(&self) -> *const T;
   fn as_inner_mut(&self) -> *mut T;
